@@ -6,7 +6,8 @@ only replaces the two file-system facing methods (`immediate_dependencies`, `cim
 successors table.  Oracle: reflexive-transitive closure by BFS.
   G1 exhaustive: every digraph on <= 4 nodes (self-loops and cycles included, 2**16 for n = 4) x every order of
      querying all nodes (n!) on ONE shared tree (so `_transitive_cache` carries over) x 2 passes (second pass hits
-     the cache) x successors listed ascending and descending.
+     the cache); successors listed in ascending node order (the descending order is the same space under the
+     relabelling i -> n-1-i, since all labelled graphs and all query orders are enumerated).
   G2 Hypothesis: graphs with 5..12 nodes, arbitrary per-node successor orders, query sequences with repeats.
 
 Part F (file level): see checks/c46_files.py (imported below when present).
@@ -41,22 +42,27 @@ META = {
 
 # --------------------------------------------------------------------------- graph level
 
+_table_tree_class = []
+
+
 def make_tree(succ):
     """Real DependencyTree whose file-system facing extractors are replaced by the table `succ`."""
-    from Cython.Build.Dependencies import DependencyTree
+    if not _table_tree_class:
+        from Cython.Build.Dependencies import DependencyTree
 
-    class TableTree(DependencyTree):
-        def __init__(self, table):
-            DependencyTree.__init__(self, context=None, quiet=True)
-            self.table = table
+        class TableTree(DependencyTree):
+            def __init__(self, table):
+                DependencyTree.__init__(self, context=None, quiet=True)
+                self.table = table
 
-        def immediate_dependencies(self, node):      # real one: {file} | cimported_files | included_files
-            return {node} | set(self.table[node])
+            def immediate_dependencies(self, node):      # real one: {file} | cimported_files | included_files
+                return {node} | set(self.table[node])
 
-        def cimported_files(self, node):             # real one: tuple of .pxd files, in discovery order
-            return tuple(self.table[node])
+            def cimported_files(self, node):             # real one: tuple of .pxd files, in discovery order
+                return tuple(self.table[node])
 
-    return TableTree(succ)
+        _table_tree_class.append(TableTree)
+    return _table_tree_class[0](succ)
 
 
 def closure(succ, start):
@@ -123,7 +129,7 @@ def _graph_shard(arg):
     orders = list(itertools.permutations(range(n)))
     found = {}
     for code in range(lo, hi):
-        for desc in (False, True):
+        for desc in (False,):      # descending successor order = ascending order on the node-reversed graph (also enumerated)
             succ = decode_graph(n, code, desc)
             cyc, shared = graph_features(succ)
             for order in orders:
@@ -238,8 +244,8 @@ def run_graph_part(ctx):
     ctx.pmap(_graph_shard, shards)
     ctx.exhaustive = True
     ctx.extra["exhaustive_space"] = ("every digraph on 1..4 nodes (2**(n*n) adjacency matrices, self-loops and cycles "
-                                     "included) x successors listed ascending/descending x every order of querying all "
-                                     "nodes on one shared DependencyTree x 2 passes")
+                                     "included; successors in node order) x every order of querying all nodes on one "
+                                     "shared DependencyTree x 2 passes")
     ctx.extra["exhaustive_graph_order_runs"] = int(ctx.evaluations)
     count = 1500 if ctx.quick else 40000
     ctx.pmap(_biggraph_shard, [(ctx.seed, i, count) for i in range(16)])
@@ -275,7 +281,7 @@ def run(ctx):
     prime("files" in parts)
     if "graph" in parts:
         run_graph_part(ctx)
-    rule = ("graph level: (G1) exhaustive - all digraphs on <= 4 nodes x asc/desc successor order x all n! orders of "
+    rule = ("graph level: (G1) exhaustive - all digraphs on <= 4 nodes x all n! orders of "
             "querying every node twice on one DependencyTree (one evaluation = one (graph, order) run of 2n "
             "all_dependencies calls, each compared with the BFS closure); (G2) Hypothesis graphs with 5-12 nodes, "
             "arbitrary successor orders, woven-in cycles, 1..2n queries with repeats. Non-trivial = the graph has a "
